@@ -49,6 +49,8 @@ def cases(tier, seed):
     for sig in (1e3, 1e5, 5.8e7, 1e9):
         yield dict(kind='skin', sigma=sig)
     yield dict(kind='insul')
+    # lumped loads written on the command line: every subset of R, L, C given / left empty / given as 0
+    yield dict(kind='cli')
     # distributed loads on structures: pulse lengths
     rot, sc, f = geom.variant(seed)
     for order in (0, 1):
@@ -223,6 +225,59 @@ def evaluate(c):
                     % (kind + '/' + str(c.get('which')), p.idx + 1, c['env'], ws[0]['n'], ws[0]['r'], ws[1]['n'], ws[1]['r'], c['order'], got, exp))
             canon.append('dist|%s|%d|%d|%s|%s|%d' % (kind, c['order'], c['n1'], c['env'], c.get('which'), c.get('flip2', 0)))
             nontriv.append(True)
+    elif k == 'cli':
+        from mcx import cli
+        vals = dict(R='47', L='2e-06', C='2.2e-11')
+        for f in (3.5, 14.2, 145.0):
+            base = ['-f', repr(f), '-w', '10,0,0,0,0,0,10,0.001', '--excitation-pulse=5']
+            for opt in ('--rlc-load', '--trap-load'):
+                for mask in itertools.product(('val', 'empty', 'zero'), repeat=3):
+                    if 'val' not in mask:
+                        continue
+                    if opt == '--trap-load' and (mask[1] != 'val' or mask[2] != 'val'):
+                        continue        # a trap needs its coil and its capacitor
+                    fld = [vals[x] if m_ == 'val' else ('' if m_ == 'empty' else '0') for x, m_ in zip('RLC', mask)]
+                    num = [float(vals[x]) if m_ == 'val' else 0.0 for x, m_ in zip('RLC', mask)]
+                    arg = '%s=%s' % (opt, ','.join(fld))
+                    m, diag = cli.build_main(base + [arg, '--attach-load=1,3'])
+                    ev += 1
+                    canon.append('cli|%s|%g' % (arg, f))
+                    nontriv.append('empty' in mask)
+                    if m is None:
+                        viol.append(('CLI-LOAD-REJECTED', '%s at %g MHz: %s' % (arg, f, diag[:100])))
+                        continue
+                    if len(m.loads) != 1 or [q.idx for q in m.loads[0].pulses] != [2]:
+                        viol.append(('CLI-LOAD-ATTACH', '%s: loads %s' % (arg, [(type(l).__name__, [q.idx for q in l.pulses]) for l in m.loads])))
+                        continue
+                    z = m.loads[0].impedance(f, m.pulses[2])
+                    if opt == '--rlc-load':
+                        ref, sc = circuit.series_rlc(f, num[0], num[1], num[2] or None)
+                    else:
+                        ref, sc = circuit.trap(f, num[0], num[1], num[2])
+                    chk('CLI-LOAD-VALUE', abs(z - ref) / max(sc, 1e-300), 1e-12, '%s at %g MHz acts as %s, the circuit it describes is %s' % (arg, f, z, ref))
+            # Laplace loads and plain complex loads as written
+            for a, b in (([1., 2e-9], [10., 3e-6]), ([1.], [0., 1e-6]), ([0., 1e-11], [1.]), ([1., 0., 4e-17], [5., 2e-6, 1e-16]), ([2.], [7.])):
+                arg = ['--laplace-load-a=' + ','.join(repr(x) for x in a), '--laplace-load-b=' + ','.join(repr(x) for x in b)]
+                m, diag = cli.build_main(base + arg + ['--attach-load=1,3'])
+                ev += 1
+                canon.append('cli|%s|%g' % (arg, f))
+                nontriv.append(True)
+                if m is None:
+                    viol.append(('CLI-LOAD-REJECTED', '%s at %g MHz: %s' % (arg, f, diag[:100])))
+                    continue
+                ref, sc = circuit.laplace(f, a, b)
+                z = m.loads[0].impedance(f, m.pulses[2])
+                chk('CLI-LOAD-VALUE', abs(z - ref) / max(sc, 1e-300), 1e-12, '%s at %g MHz acts as %s, the circuit it describes is %s' % (arg, f, z, ref))
+            for txt, zz in (('37-12j', 37 - 12j), ('50', 50 + 0j), ('-3+40j', -3 + 40j), ('1e2', 100 + 0j), ('12j', 12j), ('0.5+1e-3j', 0.5 + 1e-3j)):
+                m, diag = cli.build_main(base + ['--load=' + txt, '--attach-load=1,3'])
+                ev += 1
+                canon.append('cli|--load=%s|%g' % (txt, f))
+                nontriv.append(True)
+                if m is None:
+                    viol.append(('CLI-LOAD-REJECTED', '--load=%s: %s' % (txt, diag[:100])))
+                    continue
+                z = m.loads[0].impedance(f, m.pulses[2])
+                chk('CLI-LOAD-VALUE', abs(z - zz) / abs(zz), 1e-12, '--load=%s acts as %s' % (txt, z))
     elif k == 'system':
         pts = [np.array(p) for p in c['pts']]
         case = dict(f=c['f'], env=c['env'], wires=[geom.wire(pts[e['a']], pts[e['b']], e['n'], e['r']) for e in c['st']])
